@@ -7,7 +7,7 @@
    [f Rops a b] / [m1 Rops fn a] / [math_sqrt Rops a] with canonical arguments. *)
 From Coq Require Import Reals ZArith List String Lra Lia.
 From PyLib Require Import PyVal PyBuiltins Ideal Whnf PyEval.
-From Gen Require Import M_base M_Angle.
+From Gen Require Import M_base M_Angle M_Epoch.
 Import ListNotations.
 Open Scope R_scope.
 
@@ -17,7 +17,7 @@ Definition fz (n : nat) : nat := n.
 From Ltac2 Require Ltac2.
 Ltac2 Set Whnf.is_blocked as old := fun c =>
   Ltac2.Bool.or (old c)
-    (Ltac2.List.exist (Ltac2.Constr.equal c) ['@loop_fuel; '@fz; '@Angle___init__]).
+    (Ltac2.List.exist (Ltac2.Constr.equal c) ['@loop_fuel; '@fz; '@Angle___init__; '@Epoch___init__]).
 
 Ltac eval_sub_u t tac :=
   let H := fresh "Hs" in eassert (H : t = _) by (pyrun_using tac; py_canon_refl); rewrite H; clear H.
@@ -71,7 +71,7 @@ Ltac pyrunv_using tac :=
               | Rltb _ _ => py_decide_at s tac
               | Rleb _ _ => py_decide_at s tac
               | Reqb _ _ => py_decide_at s tac
-              | _ => idtac "pyrunv: stuck on" s; fail 1
+              | _ => idtac "pyrunv: stuck on" s; fail
               end
           end
       end;
@@ -103,6 +103,20 @@ Proof.
   reflexivity.
 Qed.
 
+Lemma Angle_new_deg x : Rabs x < Rlit 3600 (-1) ->
+  Angle___init__ Rops (VObj cAngle [VNone; VNone]) (mk_tuple [VFloat x]) (mk_dict []) = ang x.
+Proof.
+  intro H. unfold Angle___init__. pyrun_using ltac:(first [exact H | lra1]).
+  reflexivity.
+Qed.
+
+(* Epoch(x) for a float x converts the JDE to a calendar date and back (Epoch.set); it is not
+   entered here: theorems about functions that end in Epoch(...) are stated for whatever JDE
+   [Ef x] that constructor stores *)
+Definition Epoch_of (Ef : R -> R) : Prop :=
+  forall x, Epoch___init__ Rops (VObj cEpoch [VNone]) (mk_tuple [VFloat x]) (mk_dict [])
+            = VObj cEpoch [VFloat (Ef x)].
+
 Lemma Angle_rad_ang d : Angle_rad Rops (ang d) = VFloat (d * (PI / 180)).
 Proof. pyrun. reflexivity. Qed.
 
@@ -121,5 +135,8 @@ Ltac eval_sub t :=
   let H := fresh "Hs" in eassert (H : t = _) by (pyrun; py_canon_refl); rewrite H; clear H.
 (* evaluate the argument of a pending Angle(...) construction *)
 Ltac angle_arg :=
-  lazymatch goal with |- context [Angle___init__ Rops _ (mk_tuple [?a]) _] =>
+  try match goal with |- context [Angle___init__ Rops _ (mk_tuple [?a]) _] =>
+    tryif is_canon a then fail else eval_sub a end.
+Ltac epoch_arg :=
+  lazymatch goal with |- context [Epoch___init__ Rops _ (mk_tuple [?a]) _] =>
     tryif is_canon a then idtac else eval_sub a end.
